@@ -91,9 +91,9 @@ CHECKS["C03"] = dict(
               "as in the source (Scope.v: 5-way induction over the CPS rewriter with a specification of the continuation; ScopeP3.v: pass0 / pass3); the scope lists are evaluated inside Coq on the abstract tree "
               "of the REAL compiler's output and on the source of every generated program, with the side condition and the same-block observation for partial redeclaration; "
               "differential translation validation with locals, shadowing, closures and partial redeclaration observed through logged values; optimiser-sensitive corpus",
-    text="C03_static_scoping_partial, C03_pass2_scoping_partial, C03_pass3_keeps_scoping (Props_C03.v), with the witnesses C03_forpost_refuted (finding F3) and C03_redeclaration_refuted (finding F24: 'x, n := ...' after a yield "
-         "declares a new x inside the generated function literal; found while stating the theorem, reproduced on the real compiler). Not covered by a theorem: ':=' initialisers of rewritten for / switch statements "
-         "(hoisting into a fresh block is not in the model), yielding post statements, the range lowering, capture by reference itself (Go's closure semantics) and per-iteration loop variables of go >= 1.22 (F18): "
+    text="C03_static_scoping_partial, C03_static_scoping_any_outer_scope_partial, C03_same_resolution_partial, C03_pass2_scoping_partial, C03_pass3_keeps_scoping, C03_hoisted_initialiser_keeps_scoping (Props_C03.v), with the witnesses C03_forpost_refuted (finding F3) and C03_redeclaration_refuted (finding F24: 'x, n := ...' after a yield "
+         "declares a new x inside the generated function literal; found while stating the theorem, reproduced on the real compiler). The hoisting of ':=' initialisers of for / switch statements into a fresh block is a lowering applied by the harness (as pass0 does), shown to keep the scope lists and validated by the structural correspondence. "
+         "Not covered by a theorem: yielding post statements of loops whose body declares names in its own block (F3), the range lowering, capture by reference itself (Go's closure semantics) and per-iteration loop variables of go >= 1.22 (F18): "
          "decided by the differential check, where programs declare / shadow / update / capture / partially redeclare integer locals at random positions relative to yields and values are observed via events and yields.",
     note=C_NOTE, design="§6 C03, §11")
 CHECKS["C04"] = dict(
